@@ -19,7 +19,7 @@ CLAIMED = {
              "Solver verdict per path, not sampling.",
         note="Trusted: h5py's interpretation of an already normalised selection tuple (modelled by "
              "Python slice semantics, cross-checked on a real file each run); CrossHair's Python "
-             "semantics; the pure-Python slice.indices model (validated exhaustively on a grid).",
+             "semantics; the pure-Python slice.indices model (validated exhaustively on a grid). Round 3: direct_array_index compares the ELEMENTS returned by direct reads of a rank-2 / rank-3 array on fakeh5 (kinds of all tuple entries symbolic, one stepped slice per expression) with NumPy's rule.",
         ref="3 C06"),
     "C09": dict(
         text="For the complete prefix x unit x power tables read from the tree (21 x 31 x 7): every "
@@ -99,7 +99,7 @@ CLAIMED = {
              "runs on fakeh5 with two modelled backend faults (dataset creation refuses a dtype; "
              "text cannot be written into a numeric dataset). Counterexamples are replayed on a real "
              "HDF5 file comparing an API-level picture of the whole file. One known finding "
-             "(KF-C12-1, known_findings.json).",
+             "(KF-C12-1, known_findings.json). Round 3: argument classes added for create_data_frame, link_data_frame, the feature data setter, integer overflow / float32 property values, empty and 2-d ticks on a linked dimension, unconvertible appended data, names that are the id text of a sibling.",
         ref="3 C12"),
     "C03": dict(
         text="(a) check_entity_name refuses exactly the empty name and names containing '/', for every "
@@ -179,7 +179,7 @@ CLAIMED = {
              "are inexact in binary); for non-dyadic intervals (0.1, 0.001, 0.3 with offset 0.7) "
              "a bit-precise QF_FP encoding generated from the AST of position_at/index_of shows that a "
              "tag placed exactly on sample i <= 4096 selects exactly sample i. fakeh5 backend; counterexamples are "
-             "replayed with real floats on a real HDF5 file.",
+             "replayed with real floats on a real HDF5 file. Positions / extents arrays of an INTEGER element type are outside the claim (partitions written, the solver does not finish them; seed C08-r4s1 is recorded as not caught).",
         ref="3 C08"),
     "C05": dict(
         text="PARTIAL. Decided: (i) for 8 link lists (group arrays / tags / multi-tags, tag and "
@@ -225,7 +225,7 @@ CLAIMED = {
         note="NOT decided: that libhdf5 returns after close + reopen what it was given (in fakeh5 a "
              "reopen attaches to the same in-memory store; the real-stack replay of a counterexample "
              "does a real close + reopen). Histories of two operations on one fixture; quick tier uses "
-             "every third operation as the first step, thorough all 38.",
+             "every third operation as the first step, thorough all 38. Round 3: the state is read through TWO sets of long-lived handles and a fresh file; obligation last_write_wins writes each of 25 attributes twice (None, empty, non-ASCII, int then float) through one or two handles and reads it back through both and from a fresh file. Known finding KF-C02-1.",
         ref="12 (as built)"),
     "C04": dict(
         text="PARTIAL. On a fixture with a rich link topology (two blocks with equal entity names; one "
@@ -242,7 +242,7 @@ CLAIMED = {
              "that libhdf5's H5Ovisit reaches every link and frees the storage - fakeh5's visititems "
              "is pinned to h5py by the differential script (incl. two delete-while-visiting scenarios) "
              "but remains a model. One fixture; data frames outside. Counterexamples are replayed on a "
-             "real HDF5 file.",
+             "real HDF5 file. Round 3: fixture with data frames, a block without content, cross-block positions / extents / dimension links; known finding KF-C04-1 (block deletion leaves cross-block links).",
         ref="9 (as built)"),
     "C18": dict(
         text="PARTIAL. For old-format files built from 5 property sets (0-3 properties of int / float / "
@@ -313,7 +313,7 @@ CLAIMED = {
              "copy, cycles, links leaving it are duplicated, shallow = immediate members) pinned to h5py by "
              "the differential script. NOT decided: libhdf5's byte-level copy; data frames as copy sources; "
              "one fixture. Counterexamples are replayed on real HDF5 files. "
-             "KF-C20-1 (same-file copies with kept ids are not independent under deletion) is a known finding.",
+             "KF-C20-1 (same-file copies with kept ids are not independent under deletion) is a known finding. Round 3: data frames as copy sources, kept-id copies inside the source hierarchy, the source's ids are unchanged, the RETURNED handle lives in the destination (file, accepted link targets, copying it copies the copy).",
         ref="12 (as built)"),
     "C01": dict(
         text="PARTIAL - only the Python-side arithmetic and decisions of nixio are decided: "
